@@ -344,6 +344,13 @@ def make_layout_harness(fmt: str, max_len: int):
             return t.replace(".", ",") if comma else t
         lines = _layout_lines(fmt, sweep, lambda v: sen.text(v, style, comma), extra)
         trailing = eng.choice(2, "trailing_blank_line")
+        # every one of these parsers drops empty lines before it looks at anything, so empty lines carry no meaning in the layouts:
+        # as in the sample file / none at all / additional ones after the first line and before the last line
+        blanks = eng.choice(3, "empty_lines")
+        if blanks == 1:
+            lines = [l for l in lines if l.strip() != ""]
+        elif blanks == 2:
+            lines = lines[:1] + [""] + lines[1:-1] + ["", lines[-1]]
 
         class LayoutDF(FakeDF):
             @classmethod
@@ -400,7 +407,7 @@ def obligations(tier: str):
         ml = 2 if tier == "quick" else 3
         obs.append(Obligation("layout." + fmt, make_layout_harness(fmt, ml),
                               bounds="one sweep of 1..%d points, ascending or descending, all values symbolic; decimal point or decimal comma (not .i2b), three numeral "
-                                     "styles (plain, e-notation, E-notation), with or without a trailing empty line; layout after the repository's sample file" % (ml + 1),
+                                     "styles (plain, e-notation, E-notation), with or without a trailing empty line, empty lines as in the sample / none / additional ones; layout after the repository's sample file" % (ml + 1),
                               functions=[fn, f_h._parse_string_as_float, ds.dataframe_to_data_sets, ds._detect_columns, ds._extract_data, ds._split_sweeps],
                               stubs=stubs[:1] + ["sentinel numerals: each number is printed as a distinct exactly-representable numeral, the real line parser reads the real "
                                                  "file, and where its lists enter the table each sentinel (or its negation) becomes the symbolic real it stands for"],
